@@ -583,14 +583,20 @@ func (hl MapLiteral) PrettyPrint(out *PrintState) *PrintState {
 	if out.Compact {
 		sep = ","
 	}
+	// Keys and values are the operands of the `:` operator: parenthesize looser (or equal, for values) operators.
+	oldPrecedence := out.ExpressionPrecedence
+	colonPrecedence := Precedences[token.COLON]
 	for i, key := range hl.Order {
 		if i > 0 {
 			out.Print(sep)
 		}
+		out.ExpressionPrecedence = colonPrecedence
 		key.PrettyPrint(out)
 		out.Print(":")
+		out.ExpressionPrecedence = colonPrecedence + 1
 		hl.Pairs[key].PrettyPrint(out)
 	}
+	out.ExpressionPrecedence = oldPrecedence
 	out.Print("}")
 	return out
 }
